@@ -3,6 +3,14 @@
 import json, os
 V = '/verif'
 CHECKS = {
+ 'C14': dict(engine='K', technique='bounded model checking of the compiled code (Kani/CBMC) over symbolic f64 triples at full bit width',
+             text='Order/equality/hash laws (reflexive incl. NaN==NaN, eq<=>cmp==Equal, antisymmetry, transitivity, NaN greatest, equal=>identical hash stream) are decided by CBMC over all f64 bit patterns for DoubleOps on f64/Option/Vec(<=2) and for DoubleKey, on the real OrderedFloat code. Failures are replayed by concrete playback before being reported.',
+             note='Trusted: Kani/CBMC translation; recording Hasher stands for every Hasher. Outside: containers > 2 elements; BTreeMap DoubleOps and educe-derived generated types (not yet covered, stated in evidence).',
+             ref='§5 C14'),
+ 'C16': dict(engine='M', technique='symbolic execution of the real MIR (is_valid/valid_char + VALID_CHARS table, FromStr/new/from_plain/Deserialize, rid accessors, from_components) with z3 over all bounded byte strings; regex literal taken from the dump and compared with the spec grammar',
+             text='For all valid-UTF-8 byte strings up to the bound (16 bytes bearer, 13 bytes rid; every byte value) the solver decides acceptance == specification grammar on every entry path, accepted values render back identically, rid components are exactly the grammar groups and re-join, from_components succeeds iff each component is valid. Counterexamples are replayed on the real build (dev+release) before being reported.',
+             note='Trusted: nightly MIR printer, mirsym interpreter, listed std/serde/regex models (regex: bounded matcher over the pattern literal read from the dump, unambiguity of groups checked by a query). Outside: longer strings; the regex crate itself.',
+             ref='§5 C16'),
  'C15': dict(engine='K+M', technique='bounded model checking of the compiled code (Kani/CBMC, full-width symbolic integers) + MIR symbolic execution with z3 for the text/any routes',
              text='For every numeric construction route (new, TryFrom x6, From x6, Deserialize via serde\'s real integer visitor) the solver decides over the full integer width that Ok <=> |n| <= 2^53-1 and the value is kept. Loop-free code, so no unwinding bound; a failure is replayed natively by concrete playback before it is reported.',
              note='Trusted: Kani 0.68/CBMC 6.11 translation of the dev-profile build; the harness deserializer (delivers one symbolic number event). Outside: digit loop of i64::from_str (std).',
